@@ -55,7 +55,7 @@ type world struct {
 	task     types.Task
 	readers  map[uint8]bool
 	codes    [8]uint32           // passcodes are passed as codes[0:3]: a slice with spare capacity
-	formats  [4]types.CardFormat // card formats are passed as formats[0:1]
+	formats  [4]types.CardFormat // card formats are passed as formats[0:3] (any, Wiegand-26, Wiegand-26)
 	devClone *uhppote.Device
 	flags    map[string]bool
 	viol     func(key, what string)
@@ -275,7 +275,7 @@ func (w *world) apply(ev string) {
 	case "call-SetDoorPasscodes":
 		w.call("SetDoorPasscodes", target, func() (any, error) { _, err := w.u.SetDoorPasscodes(target, 3, w.codes[0:3]...); return nil, err })
 	case "call-PutCard-formats":
-		w.call("PutCard", target, func() (any, error) { _, err := w.u.PutCard(target, w.card, w.formats[0:1]...); return nil, err })
+		w.call("PutCard", target, func() (any, error) { _, err := w.u.PutCard(target, w.card, w.formats[0:3]...); return nil, err })
 	case "call-SetTimeProfile":
 		w.call("SetTimeProfile", target, func() (any, error) { _, err := w.u.SetTimeProfile(target, w.profile); return nil, err })
 	case "call-AddTask":
